@@ -28,8 +28,11 @@ import NB.Lemmas.Monty
 import NB.Model.AsmParams
 namespace NB
 
-/-- the extracted window width must agree with the four literal squarings per window -/
-def Params.ValidMonty (P : Params) : Prop := P.window = 4
+/-- the extracted window width `w` must be positive, divide the digit width (the `while j < BITS` loop then
+    takes exactly `64 / w` windows out of every exponent digit and `yi <<= w` never shifts by the full width),
+    keep the `1 << w`-entry table small, and agree with the extracted number of squarings per window -/
+def Params.ValidMonty (P : Params) : Prop :=
+  0 < P.window ∧ P.window ∣ 64 ∧ P.window ≤ 16 ∧ P.squarings = P.window
 instance (P : Params) : Decidable P.ValidMonty := by unfold Params.ValidMonty; infer_instance
 
 /-- proof obligation over the generated parameters (re-elaborated on every run) -/
@@ -100,12 +103,12 @@ theorem montgomery_spec (x y m : List Nat) (k n m0 : Nat) (mt : List Nat)
   exact ⟨z, e, l, d, by rw [← l]; exact val_lt d, c⟩
 
 /-- `monty_modpow(x, y, m)` for an odd modulus returns the canonical digits of `x^y mod m`
-    (padding, `rr`, the 16-entry table, 4-bit windows from the top, skipped squarings on the first
-    window, conversion out, last reduction) -/
+    (padding, `rr`, the `2^w`-entry table, `w`-bit windows from the top with `w` squarings each, skipped
+    squarings on the first window, conversion out, last reduction; `w = P.window`: 4 in the original source) -/
 theorem monty_modpow_spec (P : Params) (hP : P.ValidMonty) (x y m : List Nat) (m0 : Nat) (mt : List Nat)
     (hm : m = m0 :: mt) (hodd : m0 % 2 = 1) (hx : DigitsOk x) (hy : DigitsOk y) (hmd : DigitsOk m) :
     montyModpow P x y m = .ok (ofNat (val x ^ val y % val m)) :=
-  montyModpow_spec P hP x y m m0 mt hm hodd hx hy hmd
+  montyModpow_spec P hP.1 hP.2.1 hP.2.2.2 x y m m0 mt hm hodd hx hy hmd
 
 /-! ## top level -/
 
@@ -121,7 +124,7 @@ theorem modpow_spec (P : Params) (hP : P.ValidMonty) (b e m : List Nat) (hb : Ca
     simp only [reduceCtorEq, if_false, isOddU]
     by_cases hodd : m0 % 2 = 1
     · simp only [hodd, decide_true, if_true]
-      exact montyModpow_spec P hP b e (m0 :: mt) m0 mt rfl hodd hb.1 he.1 hm.1
+      exact montyModpow_spec P hP.1 hP.2.1 hP.2.2.2 b e (m0 :: mt) m0 mt rfl hodd hb.1 he.1 hm.1
     · simp only [hodd, decide_false, Bool.false_eq_true, if_false]
       have hev : val (m0 :: mt) % 2 = 0 := by
         simp only [val]
